@@ -56,6 +56,11 @@ func (a *abstractor) tr(t *Term) *Term {
 		body := a.tr(t.Args[0])
 		r = &Term{Op: "def", Name: t.Name + "~abs", Sort: body.Sort, Args: []*Term{body}}
 	default:
+		if t.Op == "str.in_re" {
+			r = App("s.in_re|"+t.Args[1].String(), BoolS, a.tr(t.Args[0]))
+			a.memo[t] = r
+			return r
+		}
 		args := make([]*Term, len(t.Args))
 		for i, x := range t.Args {
 			args[i] = a.tr(x)
@@ -78,6 +83,11 @@ func (a *abstractor) tr(t *Term) *Term {
 		}
 		if len(t.Op) > 4 && t.Op[:4] == "str." {
 			switch t.Op {
+			case "str.in_re":
+				// the regular expression is dropped: an uninterpreted predicate per expression
+				r = App("s.in_re|"+t.Args[1].String(), BoolS, args[0])
+			case "str.to_re":
+				r = &n
 			case "str.++":
 				// right-nested binary concatenation
 				acc := args[len(args)-1]
